@@ -503,6 +503,12 @@ def _script_half(plan, ops, symbols, probe, trace):
             lines.append("(declare-fun %s () %s)" % (bp.smt_symbol(n), bp.smt_sort(s)))
     direct = SmtLibScript()
     built = {}
+    scoped = {"dfp": None, "dq": None, "dfp_uses": 0, "dq_declared": False, "dq_defined": False, "reset": False}
+
+    def left_scope():
+        for nm in ("dfp", "dq"):
+            if scoped[nm] is not None and scoped[nm] > model.depth:
+                scoped[nm] = None
     sops = []
     for i, o in enumerate(ops):
         k = o["op"]
@@ -511,12 +517,42 @@ def _script_half(plan, ops, symbols, probe, trace):
         sops.append((i, o))
         if k == "assert":
             f = bp.build(o["f"], env)
-            direct.add(smtcmd.ASSERT, [f])
-            built[i] = f
             # the same assertion in the spellings a script may use (deterministic in the op index)
             ftxt = bp.to_smtlib(o["f"])
-            variant = (i * 7 + len(ftxt)) % 6
-            if variant == 1:
+            variant = (i * 7 + len(ftxt)) % 9
+            # names whose declaration / definition went out of scope with a pop are used again
+            if variant == 6 and scoped["dfp"] is None and model.depth > 0 and not scoped["reset"]:
+                # (define-fun dfp ((pa Bool)) Bool (and pa f)) in a pushed level, applied at once;
+                # after the pop the name is free and may be defined again with another body
+                lines.append("(define-fun dfp ((pa Bool)) Bool (and pa %s))" % ftxt)
+                lines.append("(assert (dfp true))")
+                scoped["dfp"] = model.depth
+                scoped["dfp_uses"] += 1
+                f = mgr.And(mgr.TRUE(), f)
+                if scoped["dfp_uses"] > 1:
+                    probe("script_function_redefined_after_pop")
+                variant = -1
+            elif variant == 7 and scoped["dq"] is None and model.depth > 0 and not scoped["reset"] and not scoped["dq_defined"]:
+                # a constant declared in a pushed level ...
+                lines.append("(declare-const dq Bool)")
+                lines.append("(assert (or dq %s))" % ftxt)
+                scoped["dq"] = model.depth
+                scoped["dq_declared"] = True
+                f = mgr.Or(mgr.Symbol("dq"), f)
+                variant = -1
+            elif variant == 8 and scoped["dq"] is None and scoped["dq_declared"] and not scoped["reset"]:
+                # ... and, once that level is gone, the same name introduced by a definition
+                lines.append("(define-fun dq () Bool %s)" % ftxt)
+                lines.append("(assert dq)")
+                scoped["dq"] = model.depth
+                scoped["dq_defined"] = True
+                probe("script_name_defined_after_its_declaration_was_popped")
+                variant = -1
+            direct.add(smtcmd.ASSERT, [f])
+            built[i] = f
+            if variant == -1:
+                pass
+            elif variant == 1:
                 lines.append("(assert (! %s :named na%d))" % (ftxt, i))
                 probe("script_named_assert")
             elif variant == 2:
@@ -559,7 +595,9 @@ def _script_half(plan, ops, symbols, probe, trace):
                     probe("pop2_across_soft_group")
             model.pop(o["n"])
             model_p.pop(o["n"])
+            left_scope()
         elif k == "reset":
+            scoped["reset"] = True
             direct.add(smtcmd.RESET_ASSERTIONS, [])
             lines.append("(reset-assertions)")
             model.reset_assertions()
@@ -611,6 +649,7 @@ def _script_half(plan, ops, symbols, probe, trace):
         # i-th non-declaration command of the script
         cmds = [c for c in script.commands
                 if c.name not in (smtcmd.SET_LOGIC, smtcmd.DECLARE_FUN, smtcmd.DECLARE_CONST, smtcmd.DEFINE_FUN)]
+        # (the mid-script declare-const of the scoped-name spelling exists in the parsed route only)
         if len(cmds) != len(sops):
             raise Violation("C16:script:%s:command-count" % route,
                             "script has %d commands for %d operations" % (len(cmds), len(sops)))
